@@ -80,16 +80,23 @@ def bounded_generated_models(tier, seed):
     P = C.PRIMS
     schemas = {
         "Inner": C.obj({"user-id": P["str"], "pageSize": P["int"], "when": P["datetime"], "day": P["date"], "ident": P["uuid"], "blob": P["byte"],
-                        "3dModels": P["int"], "_hidden": P["str"], "class": P["str"], "kind": {"type": "string", "enum": ["a-b", "c d"]}}, ["user-id"]),
+                        "3dModels": P["int"], "_hidden": P["str"], "class": P["str"], "kind": {"type": "string", "enum": ["a-b", "c d"]},
+                        "level": {"type": "integer", "enum": [0, 1, 2]}, "mode": {"type": "string", "enum": ["", "on"]}, "flag": P["bool"], "count": P["int"], "note": P["str"]}, ["user-id"]),
         "Outer": C.obj({"inner": C.ref("Inner"), "many": {"type": "array", "items": C.ref("Inner")}, "by-key": {"type": "object", "additionalProperties": C.ref("Inner")},
                         "maybe": C.ref("Inner"), "tags": {"type": "array", "items": P["str"]}, "address_line": P["str"], "addressLine": P["str"], "address_line_2": P["str"]},
                        ["inner", "address_line_2"]),
         "Registry": {"type": "object", "additionalProperties": C.ref("Inner")},
         "Holder": C.obj({"3dModel": C.ref("Inner"), "9lives": {"type": "array", "items": C.ref("Inner")}}, ["3dModel", "9lives"]),
+        # a dataclass with a renamed key that is reachable ONLY through a map-valued field / a list-of-maps field of another dataclass
+        "Leaf": C.obj({"leaf-id": P["str"], "n": P["int"]}, ["leaf-id"]),
+        "MapOnly": C.obj({"by-key": {"type": "object", "additionalProperties": C.ref("Leaf")}}, ["by-key"]),
+        "Leaf2": C.obj({"leaf-id": P["str"]}, ["leaf-id"]),
+        "ListOfMaps": C.obj({"rows": {"type": "array", "items": {"type": "object", "additionalProperties": C.ref("Leaf2")}}}, ["rows"]),
     }
-    d = C.doc("RT", [C.op("/o", "get", "getO", ["o"], responses={"200": C.resp_json(C.ref("Outer")), "201": C.resp_json(C.ref("Registry")), "202": C.resp_json(C.ref("Holder"))})], schemas)
+    d = C.doc("RT", [C.op("/o", "get", "getO", ["o"], responses={"200": C.resp_json(C.ref("Outer")), "201": C.resp_json(C.ref("Registry")), "202": C.resp_json(C.ref("Holder")),
+                                                                      "203": C.resp_json(C.ref("MapOnly")), "206": C.resp_json(C.ref("ListOfMaps"))})], schemas)
     inner = {"user-id": "u1", "pageSize": 3, "when": "2024-01-02T03:04:05+00:00", "day": "2024-01-02", "ident": "12345678-1234-5678-1234-567812345678",
-             "blob": "aGk=", "3dModels": 2, "_hidden": "h", "class": "c", "kind": "a-b"}
+             "blob": "aGk=", "3dModels": 2, "_hidden": "h", "class": "c", "kind": "a-b", "level": 0, "mode": "", "flag": False, "count": 0, "note": ""}
     outer = {"inner": inner, "many": [inner, {"user-id": "u2"}], "by-key": {"k": inner}, "tags": ["x"], "address_line": "a1", "addressLine": "a2", "address_line_2": "a3"}
     root = G.scratch("c03")
     failures, n = [], 0
@@ -156,6 +163,34 @@ def bounded_generated_models(tier, seed):
         n += 1
         if not ok:
             failures.append({"id": "bounded:generated-digit-leading-nested-roundtrip", "detail": out[-600:], "input": {"document": "Holder (3dModel -> Inner)"}})
+        for label, modname, cname, doc_ in (("map-valued-field-only", "map_only", "MapOnly", {"by-key": {"k1": {"leaf-id": "L", "n": 0}}}),
+                                            ("list-of-maps-field-only", "list_of_maps", "ListOfMaps", {"rows": [{"k": {"leaf-id": "L"}}]})):
+            solo3 = textwrap.dedent('''
+                import json
+                from rt.core.cattrs_converter import structure_from_dict, unstructure_to_dict
+                from rt.models.%s import %s as T
+                doc = json.loads(%r)
+                back = unstructure_to_dict(structure_from_dict(doc, T))
+                assert back == doc, (doc, back)
+            ''') % (modname, cname, __import__("json").dumps(doc_))
+            ok, out = G.import_modules(root, ["rt.models"], extra_code=solo3)
+            n += 1
+            if not ok:
+                failures.append({"id": f"bounded:generated-roundtrip:{label}", "detail": out[-600:], "input": {"document": doc_, "class": cname}})
+        # falsy leaf values survive (0, "", False are values, not "absent")
+        solo4 = textwrap.dedent('''
+            import json
+            from rt.core.cattrs_converter import structure_from_dict, unstructure_to_dict
+            from rt.models.inner import Inner
+            doc = {"user-id": "", "level": 0, "mode": "", "flag": False, "count": 0, "note": "", "pageSize": 0}
+            back = unstructure_to_dict(structure_from_dict(doc, Inner))
+            for k, v in doc.items():
+                assert k in back and json.dumps(back[k]) == json.dumps(v), (k, v, back)  # (a str-mixin Enum member serialises as its value)
+        ''')
+        ok, out = G.import_modules(root, ["rt.models"], extra_code=solo4)
+        n += 1
+        if not ok:
+            failures.append({"id": "bounded:generated-roundtrip:falsy-values", "detail": out[-600:], "input": {"document": "Inner with 0 / '' / False leaves and enum members"}})
     finally:
         shutil.rmtree(root, ignore_errors=True)
     return {"function": "structure_from_dict / unstructure_to_dict on GENERATED models in a fresh interpreter", "backend": "bounded",
